@@ -1,6 +1,7 @@
 //! tasksim — task-level deterministic simulator for jplatte/eyeball (see /verif/DESIGN.md).
 
 mod common;
+mod obsworld;
 mod rng;
 mod runner;
 mod track;
@@ -26,6 +27,7 @@ fn install_panic_hook() {
     }));
 }
 
+const OBS_PROPS: &[&str] = &["C01", "C02", "C03", "C16", "C19"];
 const VEC_PROPS: &[&str] = &["C05", "C06", "C07", "C08", "C09", "C10", "C11", "C12", "C13", "C14", "C15", "C17", "C20"];
 
 struct Args {
@@ -175,31 +177,40 @@ fn replay(a: &Args) -> i32 {
         "vector" => {
             let rf: ReplayFile<vecworld::steps::Case> = serde_json::from_str(&text).unwrap();
             let check = vecworld::check::VecCheck { prop: rf.property.clone(), kf_retire: true };
-            let out = check.exec(&rf.case);
-            match out.violation {
-                Some(v) if v == rf.violation => {
-                    println!("replay reproduced: oracle={} stage={} step={} — {}", v.oracle, v.stage, v.step, v.detail);
-                    println!("VIOLATION property={} replay={}", rf.property, path);
-                    1
-                }
-                Some(v) => {
-                    println!("replay produced a different violation: {:?} (recorded: {:?})", v, rf.violation);
-                    if v.class() == rf.violation.class() {
-                        println!("VIOLATION property={} replay={}", rf.property, path);
-                        1
-                    } else {
-                        3
-                    }
-                }
-                None => {
-                    println!("replay did not reproduce the recorded violation (property holds on this run)");
-                    0
-                }
-            }
+            replay_with(&check, &rf, &path)
+        }
+        "observable" => {
+            let rf: ReplayFile<obsworld::steps::Case> = serde_json::from_str(&text).unwrap();
+            let check = obsworld::check::ObsCheck { prop: rf.property.clone() };
+            replay_with(&check, &rf, &path)
         }
         w => {
             eprintln!("unknown world {w}");
             2
+        }
+    }
+}
+
+fn replay_with<K: Check>(check: &K, rf: &ReplayFile<K::Case>, path: &str) -> i32 {
+    let out = check.exec(&rf.case);
+    match out.violation {
+        Some(v) if v == rf.violation => {
+            println!("replay reproduced exactly: oracle={} stage={} step={} — {}", v.oracle, v.stage, v.step, v.detail);
+            println!("VIOLATION property={} replay={}", rf.property, path);
+            1
+        }
+        Some(v) => {
+            println!("replay produced a different violation: {:?} (recorded: {:?})", v, rf.violation);
+            if v.class() == rf.violation.class() {
+                println!("VIOLATION property={} replay={}", rf.property, path);
+                1
+            } else {
+                3
+            }
+        }
+        None => {
+            println!("replay did not reproduce the recorded violation (property holds on this run)");
+            0
         }
     }
 }
@@ -215,6 +226,9 @@ fn main() {
             }
             if VEC_PROPS.contains(&a.prop.as_str()) {
                 let check = vecworld::check::VecCheck { prop: a.prop.clone(), kf_retire: a.kf_retire };
+                run_check(&check, &a, "exploration", 2_000_000, 240)
+            } else if OBS_PROPS.contains(&a.prop.as_str()) {
+                let check = obsworld::check::ObsCheck { prop: a.prop.clone() };
                 run_check(&check, &a, "exploration", 2_000_000, 240)
             } else {
                 eprintln!("unknown property {}", a.prop);
